@@ -54,8 +54,9 @@ def generate(rng, tier):
         ("life", 2000 * k, bc.gen_lifecycle),
         ("follow", 200 * k, bc.gen_followup),
         ("long", 8 * k, bc.gen_long),
-        ("case", 40 * k, lambda r, i: bc.gen_special(r, i, "case")),
-        ("twotypes", 30 * k, lambda r, i: bc.gen_special(r, i, "two-types")),
+        ("case", 120 * k, lambda r, i: bc.gen_special(r, i, "case")),
+        ("twotypes", 60 * k, lambda r, i: bc.gen_special(r, i, "two-types")),
+        ("twotypesaddr", 20 * k, lambda r, i: bc.gen_special(r, i, "two-types-addr")),
         ("ptrvar", 30 * k, lambda r, i: bc.gen_special(r, i, "ptr-variant")),
     ])
 
